@@ -113,6 +113,7 @@ func vInvalidOps() []vBadOp {
 		{q: `{ me { ...A } } fragment A on Human { ...B } fragment B on Human { ...A }`},
 		{q: `query A { me { name } } query B { me { phone } }`, own: true},
 		{q: `query A { me { name } }`, opName: "Nope", own: true},
+		{q: `{ me { name } }`, opName: "A", own: true}, // names an operation the document does not contain
 		{q: `{ me { name }`},
 		{q: `{ me }`},
 		{q: `mutation { saveHuman { name } }`},
@@ -213,8 +214,10 @@ func VerifServiceErrors() {
 	for i := 0; i < n; i++ {
 		errsDown = append(errsDown, vErrPayload(i))
 	}
-	if n == 2 {
-		verifAssume(errsDown[0]["message"] != errsDown[1]["message"]) // errors are matched by message
+	if n == 2 && errsDown[0]["message"] == errsDown[1]["message"] {
+		// two errors with the same message are told apart by their paths
+		verifAssume(!vEqJSON(vJSONNorm10(errsDown[0]["path"]), vJSONNorm10(errsDown[1]["path"])))
+		verifReach("same message twice")
 	}
 	// which step fails: the root step (svc0) or the child step (svc1)
 	target := verifChoice("failing", 2)
@@ -226,18 +229,19 @@ func VerifServiceErrors() {
 		found := false
 		for _, ge := range got {
 			gm, _ := ge.(map[string]interface{})
-			if gm != nil && gm["message"] == de["message"] {
-				found = true
-				wantExt, hasExt := de["extensions"]
-				if hasExt && wantExt != nil {
-					vAssertSame(".errors.extensions", vJSONNorm10(gm["extensions"]), vJSONNorm10(wantExt))
-				}
-				if wp, hasPath := de["path"]; hasPath {
-					vAssertSame(".errors.path", vJSONNorm10(gm["path"]), vJSONNorm10(wp))
-				}
+			if gm == nil || gm["message"] != de["message"] {
+				continue
+			}
+			if !vEqJSON(vJSONNorm10(gm["path"]), vJSONNorm10(de["path"])) {
+				continue // another error with the same message
+			}
+			found = true
+			wantExt, hasExt := de["extensions"]
+			if hasExt && wantExt != nil {
+				vAssertSame(".errors.extensions", vJSONNorm10(gm["extensions"]), vJSONNorm10(wantExt))
 			}
 		}
-		verifAssert(found, "a downstream error is forwarded with its message")
+		verifAssert(found, "a downstream error is forwarded with its message and path")
 	}
 	if maxBatch == 1 {
 		verifReach("chunked downstream calls")
@@ -247,6 +251,38 @@ func VerifServiceErrors() {
 	} else {
 		verifReach("root step failed")
 	}
+}
+
+// vEqJSON compares two JSON-normalised values
+func vEqJSON(a, b interface{}) bool {
+	switch x := a.(type) {
+	case nil:
+		return b == nil
+	case []interface{}:
+		y, ok := b.([]interface{})
+		if !ok || len(x) != len(y) {
+			return false
+		}
+		for i := range x {
+			if !vEqJSON(x[i], y[i]) {
+				return false
+			}
+		}
+		return true
+	case map[string]interface{}:
+		y, ok := b.(map[string]interface{})
+		if !ok || len(x) != len(y) {
+			return false
+		}
+		for k, v := range x {
+			w, has := y[k]
+			if !has || !vEqJSON(v, w) {
+				return false
+			}
+		}
+		return true
+	}
+	return a == b
 }
 
 func vJSONNorm10(v interface{}) interface{} {
